@@ -95,6 +95,8 @@ type parseObserver struct {
 	orig    []byte
 	noStd   bool   // skip the (slow) stdlib observations for very long inputs
 	arena   []byte // one input array, refilled for the "same array, different document" observations
+	lay     []byte // arena of the capacity-layout observations
+	tuples  [][5]int
 }
 
 var dirtyDoc = []byte(`[[[[{"a":[{"b":[1,`)
@@ -133,7 +135,7 @@ func newParseObserver() *parseObserver {
 	return po
 }
 
-const parseObsLen = 30
+const parseObsLen = 42
 
 // observe runs the parse family on data and returns the observation vector:
 //
@@ -144,6 +146,8 @@ const parseObsLen = 30
 //	18 Valid(grown)  19,20 SkipValue(grown) ok,p  21,22 SkipValueFast(grown) ok,p  23 panics in these
 //	24 Valid  25,26 SkipValue  27,28 SkipValueFast on the caller's array refilled with data after a same-length
 //	document went through the same Buffer  29 panics in these
+//	30 panics in the capacity layouts  31 spare capacity unchanged by them  32 document unchanged by them
+//	33.. one tuple (Valid, SkipValue ok, p, SkipValueFast ok, p) per distinct result over the layouts
 func (po *parseObserver) observe(data []byte, o []int) []int {
 	o = o[:0]
 	po.orig = append(po.orig[:0], data...)
@@ -248,7 +252,61 @@ func (po *parseObserver) observe(data []byte, o []int) []int {
 		return rjson.SkipValueFast(ar, b)
 	})
 	o = append(o, panics-before)
+	// layouts of the caller's slice: the same bytes with capacity == length (the document ends where the backing
+	// array ends) and with spare capacity that holds bytes which would continue or close whatever token or
+	// container the document ends in (a digit, a quote, either closing bracket, the last letter of a literal).
+	// What lies beyond len(data) is not input.  Distinct observation tuples are recorded once each (a set).
+	before = panics
+	n = len(data)
+	need := n + len(layoutTails[0])
+	if cap(po.lay) < 2*need {
+		po.lay = make([]byte, 2*need+64)
+	}
+	tailsIntact, docsIntact := 1, 1
+	tuples := po.tuples[:0]
+	for li := 0; li <= len(layoutTails); li++ {
+		var d []byte
+		var tail []byte
+		if li == 0 {
+			d = po.lay[len(po.lay)-n:]
+		} else {
+			d = po.lay[li : li+n] // a different start offset (alignment) for every tail
+			tail = po.lay[li+n : li+n+len(layoutTails[li-1])]
+			copy(tail, layoutTails[li-1])
+		}
+		copy(d, data)
+		var t [5]int
+		guard(func() { t[0] = b2i(rjson.Valid(d, nil)) })
+		t[2], t[4] = -1, -1
+		guard(func() { p, err := rjson.SkipValue(d, nil); t[1], t[2] = b2i(err == nil), p })
+		guard(func() { p, err := rjson.SkipValueFast(d, nil); t[3], t[4] = b2i(err == nil), p })
+		if li > 0 && !bytes.Equal(tail, layoutTails[li-1]) {
+			tailsIntact = 0
+		}
+		if !bytes.Equal(d, data) {
+			docsIntact = 0
+		}
+		seen := false
+		for _, u := range tuples {
+			if u == t {
+				seen = true
+			}
+		}
+		if !seen {
+			tuples = append(tuples, t)
+		}
+	}
+	po.tuples = tuples
+	o = append(o, panics-before, tailsIntact, docsIntact)
+	for _, t := range tuples {
+		o = append(o, t[:]...)
+	}
 	return o
+}
+
+// what the spare capacity of the caller's slice holds in the layout observations
+var layoutTails = [][]byte{
+	[]byte(`5"]}]}"]}  `), []byte(`"]}]}"]}5  `), []byte(`]}]"}]}5"  `), []byte(`}]}"]}]5"  `), []byte(`e"]}]}"]}5 `), []byte(`l"]}]}"]}5 `),
 }
 
 // genSweep: every base (reachable state, and every viable transition into a state) x byte values x
